@@ -14,6 +14,7 @@ from vlib import common, doclib, tlc, tree
 
 common.import_repo()
 from autobean_refactor import models  # noqa: E402
+from autobean_refactor.models import base  # noqa: E402
 from autobean_refactor.models.internal.spacing_accessors import SpacingAccessorsMixin  # noqa: E402
 
 ATOMS = [' ', '\t', '\n', '\r\n']
@@ -99,7 +100,17 @@ def adjacency(text: str, default: bool) -> list[dict]:
     store = f.token_store
     toks = list(store)
     idx = {id(t): i for i, t in enumerate(toks)}
-    nodes = [m for p, m in tree.walk(f) if isinstance(m, SpacingAccessorsMixin) and m is not f]
+    walked = [m for p, m in tree.walk(f)]
+    nodes = [m for m in walked if isinstance(m, SpacingAccessorsMixin) and m is not f]
+    owned = {id(m) for m in walked if isinstance(m, base.RawTokenModel)}
+
+    def gap_kind(t: Any) -> str:
+        # a token that is nobody's child and whose text is blanks only is whitespace between the neighbours, whatever
+        # its class (an indentation token that belongs to a posting / meta item is that model's own first token)
+        k = kind(t)
+        if k == 'O' and id(t) not in owned and not t.raw_text.strip(' \t'):
+            return 'B'
+        return k
     out = []
     for A in nodes:
         ea = idx[id(A.last_token)]
@@ -108,11 +119,12 @@ def adjacency(text: str, default: bool) -> list[dict]:
             if sb <= ea:
                 continue
             gap = toks[ea + 1:sb]
-            ks = ''.join(kind(t) for t in gap)
+            ks = ''.join(gap_kind(t) for t in gap)
             core = ks.strip('Z')
             if not gap or 'O' in ks or 'Z' in core or not core or not tree.text_of(A) or not tree.text_of(B):
                 continue      # (zero-width marks are not neighbours; a gap without blanks is no gap)
-            out.append(base_ev('adj', same=A.spacing_after == B.spacing_before))
+            between = ''.join(t.raw_text for t in gap)
+            out.append(base_ev('adj', same=A.spacing_after == B.spacing_before == between))
     return [{'text': text, 'model': 'adjacent pairs', 'events': out, 'crash': None}] if out else []
 
 
@@ -183,9 +195,15 @@ def run(rep: common.Reporter, tier: str, prop: str = 'C17') -> dict:
     docs, r = doclib.layouts(max_lines=2 if tier == 'quick' else 3, accepted_only=True,
                              devs=('none', 'trail', 'trailinline'), eols=('lf', 'crlf'), finals=(True, False))
     rng = random.Random(seed)
-    more, _ = doclib.layouts(max_lines=3 if tier == 'quick' else 4, accepted_only=True)
+    more, _ = doclib.layouts(max_lines=3 if tier == 'quick' else 4, accepted_only=True, eols=('lf', 'crlf'))
     more = [d for d in more if len(d['lines']) == (3 if tier == 'quick' else 4)]
-    docs = docs + rng.sample(more, min(len(more), 150 if tier == 'quick' else 1500))
+    # every document with a whitespace-only or blank line between two other lines (gaps of several tokens), both
+    # line-end conventions; the rest sampled
+    gaps = [d for d in more if any(k in ('ws', 'blank') for k in d['lines'][1:-1])]
+    rest = [d for d in more if d not in gaps]
+    if tier == 'quick':
+        gaps = rng.sample(gaps, min(len(gaps), 260))
+    docs = docs + gaps + rng.sample(rest, min(len(rest), 150 if tier == 'quick' else 1500))
     traces: list = []
     with mp.Pool(16) as pool:
         jobs = [(seed + j, [seed % 12], ch, 2 if tier == 'quick' else 4) for j, ch in enumerate(common.chunked(docs, 10))]
